@@ -157,9 +157,10 @@ def obj_nvariants(s):
     return 4 + len(registry()[s[1]]['extra'])
 
 
-def build_obj(s, k, build):
+def build_obj(s, k, build, py=False):
     ent = registry()[s[1]]
-    vals = [(p, build(a, k)) for p, a in s[2]]
+    py = py or not s[1].startswith('K.')  # nutils constructors insist on Python ints / bools / floats
+    vals = [(p, build(a, k, py)) for p, a in s[2]]
     nv = 4 + len(ent['extra'])
     kk = k % nv
     if kk >= 4:
